@@ -32,21 +32,154 @@ MUTATING = {"type_rename", "mk_group", "mk_object", "add_data", "set_values", "r
 
 
 def floors(tier):
-    return {"C09.collateral": 3000, "bracketed-ops": 800, "C09.noop-changed": 60, "op:remove": 30, "op:copy": 30, "op:move": 30, "op:set_values": 30}
+    return {"C09.collateral": 3000, "bracketed-ops": 800, "C09.noop-changed": 60, "op:remove": 30, "op:copy": 30, "op:move": 30, "op:set_values": 30, "drill-ops": 60, "op:dup_uid": 40}
 
 
 def gen_cases(tier, seed):
     n = 160 if tier == "quick" else 3000
     cases = []
     for i in range(n):
-        cases.append({"kind": "history", "profile": ["mixed", "churn", "pg"][i % 3], "n_ops": [10, 14, 20][i % 3] if tier == "quick" else [15, 25, 40][i % 3], "gc": ["default", "every", "seeded"][(i // 3) % 3], "refs": ["strong", "refetch"][(i // 9) % 2], "noop": i % 4 == 0})
+        cases.append({"kind": "history", "profile": ["mixed", "churn", "pg", "refuse"][i % 4], "n_ops": [10, 14, 20][i % 3] if tier == "quick" else [15, 25, 40][i % 3], "gc": ["default", "every", "seeded", "aggressive"][(i // 3) % 4], "refs": ["strong", "refetch"][(i // 9) % 2], "noop": i % 4 == 0})
+    # holes of one drillhole group share their stored arrays: an operation aimed at one hole (first, middle, last) must leave the
+    # others' slices and records alone
+    for t in range(4):
+        for op in DRILL_OPS:
+            for version in (2.0, 2.1):
+                cases.append({"kind": "drill", "target": t, "op": op, "version": version})
     return cases
+
+
+DRILL_OPS = ["update", "update-longer", "add-data", "remove-data", "rename-data", "remove-hole", "new-table", "flag"]
+
+
+def run_drill(case, rec):
+    import tempfile
+    import uuid
+    import warnings
+
+    import h5py
+    import numpy as np
+    from geoh5py.groups import DrillholeGroup
+    from geoh5py.objects import Drillhole
+    from geoh5py.workspace import Workspace
+
+    from ..core import exc_origin
+
+    warnings.simplefilter("ignore")
+    d = tempfile.mkdtemp(prefix="gvm_")
+    path = os.path.join(d, f"dh_{os.getpid()}.geoh5")
+    t, op = case["target"], case["op"]
+    where = f"drill:{op}:hole{t}"
+
+    def api_view(ws, skip):
+        out = {}
+        for h in ws.get_entity("DH")[0].children:
+            if h.name == skip:
+                continue
+            for nm in h.get_data_list():
+                dd = h.get_data(nm)[0]
+                out[(h.name, nm)] = (None if dd.values is None else np.asarray(dd.values, dtype=float).tolist(), str(dd.uid))
+        return out
+
+    def raw_view(skip_uid):
+        out = {}
+        with h5py.File(path, "r") as h5:
+            base = h5[list(h5)[0]]
+            for g in base["Groups"].values():
+                if "Concatenated Data" not in g:
+                    continue
+                cat = g["Concatenated Data"]
+                for label in cat["Index"]:
+                    arr = cat["Data"][label][()] if label in cat.get("Data", {}) else (cat[label][()] if label in cat else None)
+                    for row in cat["Index"][label][()]:
+                        oid = row["Object ID"].decode() if isinstance(row["Object ID"], bytes) else str(row["Object ID"])
+                        if oid.strip("{}") == skip_uid or arr is None:
+                            continue
+                        sl = arr[int(row["Start index"]): int(row["Start index"]) + int(row["Size"])]
+                        out[(oid, label)] = [x.decode() if isinstance(x, bytes) else (None if isinstance(x, float) and x != x else (x.item() if hasattr(x, "item") else x)) for x in sl.tolist()] if sl.dtype.kind != "f" else [None if v != v else float(v) for v in sl.tolist()]
+        return out
+
+    try:
+        ws = Workspace.create(path, version=case["version"])
+        grp = DrillholeGroup.create(ws, name="DH")
+        for i in range(4):
+            h = Drillhole.create(ws, parent=grp, name=f"hole{i}", collar=[float(i), 0.0, 0.0], surveys=np.array([[0.0, 0.0, -90.0], [100.0, 0.0, -90.0]]))
+            n = [3, 5, 2, 4][i]
+            h.add_data({"Au": {"depth": np.arange(n) + 0.5, "values": np.arange(n) + 100.0 * (i + 1)}, "Cu": {"depth": np.arange(n) + 0.5, "values": np.arange(n) + 1000.0 * (i + 1)}}, property_group="assay")
+            h.add_data({"Lith": {"from-to": np.c_[np.arange(2.0) + 10 * i, np.arange(2.0) + 10 * i + 0.5], "values": np.arange(2.0) + 7 * i}}, property_group="lith")
+        del h, grp
+        ws.close()
+        ws = Workspace(path, mode="r+")
+        target = [c for c in ws.get_entity("DH")[0].children if c.name == f"hole{t}"][0]
+        tuid = str(target.uid)
+        api0 = api_view(ws, f"hole{t}")
+        ws.close()
+        raw0 = raw_view(tuid)
+        ws = Workspace(path, mode="r+")
+        target = ws.get_entity(uuid.UUID(tuid))[0]
+        try:
+            if op == "update":
+                dd = target.get_data("Au")[0]
+                dd.values = dd.values * -1.0 - 5.0
+            elif op == "update-longer":
+                ws.remove_entity(target.get_data("Cu")[0])
+                target.add_data({"Cu": {"values": np.arange(len(target.get_data("Au")[0].values)) + 55.0}}, property_group="assay")
+            elif op == "add-data":
+                target.add_data({"Zn": {"values": np.arange(len(target.get_data("Au")[0].values)) + 9.0}}, property_group="assay")
+            elif op == "remove-data":
+                ws.remove_entity(target.get_data("Cu")[0])
+            elif op == "rename-data":
+                target.get_data("Cu")[0].name = "Cu_new"
+            elif op == "remove-hole":
+                ws.remove_entity(target)
+            elif op == "new-table":
+                target.add_data({"Mag": {"depth": np.arange(6.0) + 50.5, "values": np.arange(6.0)}}, property_group="mag")
+            elif op == "flag":
+                target.get_data("Au")[0].public = False
+                target.visible = False
+        except Exception as exc:  # noqa: BLE001
+            if not exc_origin(exc)[0]:
+                raise
+            rec.see("drill-op-refused:" + type(exc).__name__)
+        del target
+        rec.see("bracketed-ops")
+        rec.see("drill-ops")
+        api1 = api_view(ws, f"hole{t}")
+        for key, (vals, uid_) in api0.items():
+            got = api1.get(key)
+            rec.evals["C09.collateral"] += 1
+            if got is None or got[0] != vals or got[1] != uid_:
+                rec.fail("C09.collateral", op=where, cls="ConcatenatedData", attr="other-hole-live", detail=f"{key[0]}.{key[1]} read {vals} before the operation on hole{t} and {None if got is None else got[0]} after it", counted=True)
+        ws.close()
+        raw1 = raw_view(tuid)
+        for key, sl in raw0.items():
+            rec.evals["C09.collateral"] += 1
+            if raw1.get(key) != sl:
+                rec.fail("C09.collateral", op=where, cls="Concatenated", attr="other-hole-stored:" + (key[1] if key[1] in ("Surveys", "Trace", "Property Group IDs") else "data"), detail=f"stored slice of ({key[0]}, {key[1]}) was {sl} before the operation on hole{t} and is {raw1.get(key)} after it", counted=True)
+        with Workspace(path, mode="r") as fresh:
+            api2 = api_view(fresh, f"hole{t}")
+        for key, (vals, uid_) in api0.items():
+            got = api2.get(key)
+            rec.evals["C09.collateral"] += 1
+            if got is None or got[0] != vals:
+                rec.fail("C09.collateral", op=where, cls="ConcatenatedData", attr="other-hole-reopened", detail=f"{key[0]}.{key[1]} read {vals} before the operation on hole{t}; a fresh reader sees {None if got is None else got[0]}", counted=True)
+        rec.nontrivial = True
+        rec.shape = ["drill", op, t, case["version"]]
+        rec.sample = {"profile": "drill", "op": op, "target": f"hole{t}"}
+    finally:
+        try:
+            ws.close()
+        except Exception:  # noqa: BLE001
+            pass
+        shutil.rmtree(d, ignore_errors=True)
+        gc.collect()
 
 
 PROFILES = {
     "mixed": {"reopen": 0.6},
     "churn": {"remove": 3.5, "copy": 2.5, "move": 3.0, "rename": 2.0, "reopen": 1.0, "gc": 1.0, "listing": 1.0, "move_data": 1.5},
     "pg": {"add_data": 6.0, "pg_add": 4.0, "pg_remove_data": 2.0, "pg_delete": 1.0, "remove": 3.0, "set_values": 4.0, "flag": 2.0},
+    "refuse": {"dup_uid": 5.0, "remove_protected": 2.0, "mk_object": 3.0, "add_data": 3.0, "gc": 2.0, "listing": 2.5, "remove": 1.5},
 }
 
 
@@ -183,6 +316,8 @@ def noop_checks(rec, path):
 
 
 def run_case(case, rec):
+    if case["kind"] == "drill":
+        return run_drill(case, rec)
     rng = random.Random(case["seed"])
     mon = C09Monitor()
 
